@@ -411,3 +411,34 @@ pub fn is_query_hop_finding(call: &EncCall, exp: &[u8], got: &[u8]) -> bool {
     fix_pec(&mut e);
     e[..n] == got[..n] && exp[10] == 0x0F
 }
+
+/// Encoder calls made on the context *before* the call under test ("used"
+/// contexts): one that shares argument values with it but differs where a
+/// cache keyed too coarsely would confuse them, and one of another kind.
+pub fn predecessors(call: &EncCall) -> Vec<EncCall> {
+    use EncCall::*;
+    match call {
+        Vendor { fmt, data, num, msg } => vec![
+            // same number, the other format (a header cache keyed on the number alone)
+            Vendor { fmt: if *fmt == 0 { 1 } else { 0 }, data: *data, num: *num, msg: msg.clone() },
+            RespGetEid { cc: 0, ty: 1, idty: 2, fair: true },
+        ],
+        Raw { half, writer, hdr, data } => vec![
+            Raw { half: *half, writer: *writer, hdr: hdr.clone(), data: data.iter().map(|b| !b).chain([0xEE, 0xEE]).collect() },
+            Vendor { fmt: 0, data: 0x1234, num: 0, msg: vec![0xCC; 40] },
+        ],
+        c if c.is_request() => vec![
+            ReqResolveUuid { uuid: [0xDD; 16], h: 0xDD },
+            c.clone(),
+            ReqAllocate { op: 1, size: 0xEE, first: 0xEE },
+        ],
+        c => vec![
+            // responses: a long one that leaves non-zero scratch behind, a Get EID (consumers of the
+            // stored EID), then the same call once already
+            RespMsgTypes { cc: 0, types: vec![0xBB; 30] },
+            RespGetEid { cc: 0, ty: 1, idty: 3, fair: true },
+            RespUuid { cc: 0, uuid: [0xCC; 16] },
+            c.clone(),
+        ],
+    }
+}
